@@ -532,21 +532,32 @@ def nests_check(ctx, res, rng):
 
     mu = Beta('mu', 1.5, 1.0, None, 0)
     choice_set = [1, 2, 3, 4]
-    V = {i: Beta(f'a{i}', 0.0, None, None, 0) for i in choice_set}
+    choice_set6 = [1, 2, 3, 4, 5, 6]
+    V = {i: Beta(f'a{i}', 0.0, None, None, 0) for i in choice_set6}
     specs = {
         'overlap': [[1, 2], [2, 3]],
         'outside': [[1, 2], [3, 9]],
         'valid_partition': [[1, 2], [3, 4]],
         'valid_alone': [[1, 2]],
     }
+    # random structures: 2-4 nests over {1..6}; valid iff pairwise disjoint (also NON-adjacent pairs) and inside the choice set
+    for i in range(40):
+        k = rng.randint(2, 4)
+        pool = [1, 2, 3, 4, 5, 6, 9]
+        groups = []
+        for _ in range(k):
+            groups.append(sorted(rng.sample(pool, rng.randint(1, 3))))
+        flat = [a for g in groups for a in g]
+        ok = len(flat) == len(set(flat)) and all(a in choice_set6 for a in flat)
+        specs[('valid_r%d' if ok else 'invalid_r%d') % i] = groups
     for name, groups in specs.items():
         case = {'nests': name, 'groups': groups}
         res.count(case, nontrivial=True)
         try:
-            nests = NestsForNestedLogit(choice_set=choice_set, tuple_of_nests=tuple(OneNestForNestedLogit(nest_param=mu, list_of_alternatives=g, name=f'n{i}') for i, g in enumerate(groups)))
+            nests = NestsForNestedLogit(choice_set=(choice_set6 if '_r' in name else choice_set), tuple_of_nests=tuple(OneNestForNestedLogit(nest_param=mu, list_of_alternatives=g, name=f'n{i}') for i, g in enumerate(groups)))
             ok, msg = nests.check_partition()
             if ok:
-                models.lognested(V, None, nests, 1)
+                models.lognested({i: V[i] for i in (choice_set6 if '_r' in name else choice_set)}, None, nests, 1)
             got = 'ok' if ok else 'refused'
         except Exception as e:  # noqa: BLE001
             got = 'refused' if core.exc_kind(e) == 'BiogemeError' else core.exc_kind(e)
@@ -556,8 +567,8 @@ def nests_check(ctx, res, rng):
         if exp == 'refused':
             # the model function must refuse too, with the library error
             try:
-                nests = NestsForNestedLogit(choice_set=choice_set, tuple_of_nests=tuple(OneNestForNestedLogit(nest_param=mu, list_of_alternatives=g, name=f'n{i}') for i, g in enumerate(groups)))
-                models.lognested(V, None, nests, 1)
+                nests = NestsForNestedLogit(choice_set=(choice_set6 if '_r' in name else choice_set), tuple_of_nests=tuple(OneNestForNestedLogit(nest_param=mu, list_of_alternatives=g, name=f'n{i}') for i, g in enumerate(groups)))
+                models.lognested({i: V[i] for i in (choice_set6 if '_r' in name else choice_set)}, None, nests, 1)
                 res.violate(f'models.lognested accepts {name} nests', case, 'ok', 'BiogemeError', where='models.nested')
             except Exception as e:  # noqa: BLE001
                 if core.exc_kind(e) != 'BiogemeError':
